@@ -44,6 +44,13 @@ func LoadReplay(path string) (label, harness string, err error) {
 	return rf.Label, rf.Harness, nil
 }
 
+// ResetReplay rewinds the replay for another repetition with the same values.
+func ResetReplay() {
+	replayCount = map[string]int{}
+	Failures = nil
+	Diverged = false
+}
+
 // SetValues installs concrete values directly (native self-tests).
 func SetValues(m map[string]uint64) {
 	replayVals = m
